@@ -51,7 +51,7 @@ def make_poly_model(in_names, out_terms, alpha_effect=None, log=None, cost=None)
             log.append((None if model_fidelity is None else np.atleast_2d(model_fidelity).tolist(),
                         {n: np.atleast_1d(inputs[n]).tolist() for n in in_names}))
         if cost is not None:
-            ret['model_cost'] = cost
+            ret['model_cost'] = np.full(np.shape(np.atleast_1d(xs[0])), float(cost))
         return ret
     model.__name__ = 'poly_model'
     return model
